@@ -46,9 +46,9 @@ VARIABLES T, Chk, Family,   \* chosen in the initial state, constant afterwards
           plan    \* family "cover": the valid word being supplied (<<>> otherwise)
 vars == <<T, Chk, Family, ins, hist, rare, plan>>
 
-A == ModelOf[T].A
-P == ModelOf[T].P
-FD == ModelOf[T].FD
+A == ModelFor(T).A
+P == ModelFor(T).P
+FD == ModelFor(T).FD
 Sigma == SigmaOf[T]
 Multi == MultiOf[T]
 RareSigma == RareSigmaOf[T]
@@ -63,13 +63,13 @@ Subst(s, k, v) == [j \in DOMAIN s |-> IF j = k THEN v ELSE s[j]]
 First(s, a) == CHOOSE j \in DOMAIN s : s[j] = a /\ \A k \in 1..(j - 1) : s[k] # a
 
 \* forward = j addresses the j-th leaf named a of the content model's particle tree (document order)
-LeafCount(a) == Cardinality({j \in DOMAIN Leaves[T] : Leaves[T][j] = a})
+LeafCount(a) == Cardinality({j \in DOMAIN LeavesFor(T) : LeavesFor(T)[j] = a})
 
 ExpectAdd(a) == IF Chk THEN Ext(A, P, FD, Append(ins, a)) ELSE TRUE
 
 \* the valid words supplied by the cover / wordrem families: one per follow edge, and every cycle taken twice,
 \* bounded in length so that one pathological type cannot dominate
-PlanWords(t) == LET M == ModelOf[t].A  st == PlanStrideOf[t]
+PlanWords(t) == LET M == ModelFor(t).A  st == PlanStrideOf[t]
                 IN {x \in WordsOfPaths(M, EdgeCoverPathsS(M, st) \cup PumpPathsS(M, st)) : Len(x) <= PlanLen}
 
 Init == /\ T \in Types /\ Chk \in Chks /\ Family \in Families
